@@ -40,7 +40,7 @@ def run(rep, work, tier, seed):
         leg_mutant(rep, work, SPEC, "mutant_merge_swapped", cfg_text(dict(small, Bug="merge_swapped"), invariants=INVS),
                    ["FoldOrder"])
     leg_r(rep, work, SPEC, f"conf_{tier}", cfg_text(conf, invariants=INVS), lambda: MetricsDriver(MT),
-          internal=INTERNAL)
+          internal=INTERNAL, world=True)
     # leg T: random programs over 4 tasks / 8 scopes recorded from the real library, validated by a trace module
     # generated from Metrics.tla (callbacks run as silent internal steps between the logged events)
     rnd = random.Random(seed * 19 + 5)
